@@ -335,8 +335,10 @@ def run_property(mod, pid, tier, seed, t0):
         ev['level'] = 'other'
         ev['coverage']['explanation'] = ('not every obligation is discharged on this run (%d of %d; the rest are '
                                          'recorded known findings or undecided). ' % (discharged, len(proof_obs))) + ev['coverage']['explanation']
-    os.makedirs(os.path.join(VERIF, 'evidence'), exist_ok=True)
-    json.dump(ev, open(os.path.join(VERIF, 'evidence', pid + '.json'), 'w'), indent=1, default=str)
+    # runs against a scratch copy of the repository (seeded-change experiments) must not overwrite the evidence
+    evdir = os.path.join(VERIF, 'evidence') if os.path.realpath(extract.REPO) == '/repo' else os.path.join(VERIF, 'evidence', '_scratch')
+    os.makedirs(evdir, exist_ok=True)
+    json.dump(ev, open(os.path.join(evdir, pid + '.json'), 'w'), indent=1, default=str)
     print('%s tier=%s functions=%d paths=%d obligations=%d discharged=%d refuted=%d undecided=%d unsupported=%d '
           'bounded_cases=%d gen=%.1fs solve=%.1fs wall=%.1fs' % (
               pid, tier, len(res.functions), res.paths, len(proof_obs), discharged, len(refuted), len(undecided),
